@@ -23,8 +23,11 @@ from vp.project import NAN, enc_int, enc_joint
 PINF, NINF = 1000000001, -1000000001
 
 
+SCALE = 1000
+
+
 def enc_samples(a):
-    a = np.asarray(a, dtype=np.float64)
+    a = np.asarray(a, dtype=np.float64) * SCALE
     out = np.where(np.isnan(a), NAN, np.where(np.isposinf(a), PINF, np.where(np.isneginf(a), NINF, np.rint(np.nan_to_num(a, posinf=0, neginf=0)))))
     return out.astype(np.int64).tolist()
 
@@ -138,6 +141,9 @@ def run(tier):
                     data[rng.randint(nb), rng.randint(rows), rng.randint(cols)] = val
         if np.isfinite(nodata) and rng.rand() < 0.7:
             data[rng.randint(nb), rng.randint(rows), rng.randint(cols)] = nodata
+        if dt == np.float32 and np.isfinite(nodata) and rng.rand() < 0.6:
+            # a sample merely CLOSE to the nodata value is not no-data (multiples of 1/64: exact in float32 and at scale 1000... of 1/8)
+            data[rng.randint(nb), rng.randint(rows), rng.randint(cols)] = nodata + float(rng.choice([0.125, -0.125, 0.002 * 0 + 0.0625 * 0 + 0.25]))
         descs = [f"b{i}" for i in range(nb)] if nb > 1 else None
         fimg = build.write_tif(tmp / f"i{k}.tif", data, dtype=dt, descriptions=descs)
         with_mask = k % 2 == 0
@@ -178,7 +184,7 @@ def run(tier):
         else:
             out["disp_ok"] = "disparity" in ds.data_vars and bool(np.array_equal(ds["disparity"].data, g)) and list(ds.coords["band_disp"].data) == ["min", "max"]
         cid = f"ds{k}"
-        cases.append({"id": cid, "step": "dataset", "rows": rows, "cols": cols, "nb": nb, "img": [enc_samples(b) for b in stored], "nodata": enc_one(nodata),
+        cases.append({"id": cid, "step": "dataset", "scale": SCALE, "rows": rows, "cols": cols, "nb": nb, "img": [enc_samples(b) for b in stored], "nodata": enc_one(nodata),
                       "mask_given": with_mask, "inmask": enc_int(inmask if with_mask else np.zeros((rows, cols))), "out": out})
         meta[cid] = feat
         if len(chk.samples) < 3:
